@@ -298,8 +298,119 @@ namespace
 {
 }
 
+  // ---------------------------------------------------------------- generated programs (tie of Model/JitProg.lean)
+  struct PSpyJ : micm::ProcessSet
+  {
+    static auto nReact() { return &PSpyJ::number_of_reactants_; }
+    static auto reactIds() { return &PSpyJ::reactant_ids_; }
+    static auto nProd() { return &PSpyJ::number_of_products_; }
+    static auto prodIds() { return &PSpyJ::product_ids_; }
+    static auto yields() { return &PSpyJ::yields_; }
+    static auto jReactIds() { return &PSpyJ::jacobian_reactant_ids_; }
+    static auto jYields() { return &PSpyJ::jacobian_yields_; }
+    static auto flatIds() { return &PSpyJ::jacobian_flat_ids_; }
+    static auto info() { return &PSpyJ::jacobian_process_info_; }
+  };
+
+  /// the tables of a JitProcessSet<L> and the textual IR of the functions it generated from them
+  template<std::size_t L>
+  void dumpPrograms(std::uint64_t seed, std::ostream& os)
+  {
+    Rng r{ seed * 2654435761ull + L };
+    Problem p = makeProblem(r);
+    using VS = micm::SparseMatrix<double, micm::SparseMatrixVectorOrdering<L>>;
+    std::map<std::string, std::size_t> vmap;
+    for (std::size_t i = 0; i < p.ns; ++i)
+      vmap["s" + std::to_string(i)] = i;
+    std::string ir_forcing, ir_jac;
+    micm::verif::JitIrSink() = &ir_forcing;
+    micm::JitProcessSet<L> jit(p.procs, vmap);
+    micm::verif::JitIrSink() = nullptr;
+    VS J = micm::BuildJacobian<VS>(jit.NonZeroJacobianElements(), L, p.ns);
+    if (seed % 2)
+      J = micm::LuDecompositionMozartInPlace::template GetLUMatrix<VS>(J, 0);  // fill-closed pattern
+    micm::verif::JitIrSink() = &ir_jac;
+    jit.SetJacobianFlatIds(J);
+    micm::verif::JitIrSink() = nullptr;
+    const micm::ProcessSet& ps = jit;
+    auto nums = [&](const auto& v)
+    {
+      std::string o;
+      for (auto x : v)
+        o += (o.empty() ? "" : ",") + std::to_string(x);
+      return o.empty() ? std::string("-") : o;
+    };
+    auto hexs = [&](const auto& v)
+    {
+      std::string o;
+      for (auto x : v)
+        o += (o.empty() ? "" : ",") + vh::hexd(x);
+      return o.empty() ? std::string("-") : o;
+    };
+    os << "CASE L=" << L << " seed=" << seed << " ns=" << p.ns << " nnz=" << J.FlatBlockSize() << "\n";
+    os << "TABLES nreact=" << nums(ps.*PSpyJ::nReact()) << " nprod=" << nums(ps.*PSpyJ::nProd()) << " rids=" << nums(ps.*PSpyJ::reactIds())
+       << " pids=" << nums(ps.*PSpyJ::prodIds()) << " yields=" << hexs(ps.*PSpyJ::yields()) << " jinfo=";
+    {
+      std::string o;
+      for (auto& i : ps.*PSpyJ::info())
+        o += (o.empty() ? "" : ",") + std::to_string(i.process_id_) + ":" + std::to_string(i.number_of_dependent_reactants_) + ":" +
+             std::to_string(i.number_of_products_);
+      os << (o.empty() ? "-" : o);
+    }
+    os << " jrids=" << nums(ps.*PSpyJ::jReactIds()) << " jyields=" << hexs(ps.*PSpyJ::jYields()) << " flat=" << nums(ps.*PSpyJ::flatIds()) << "\n";
+    os << "IR forcing\n" << ir_forcing << "\nENDIR\n";
+    os << "IR jacobian\n" << ir_jac << "\nENDIR\n";
+    // LU decomposition and linear solve generated for the pattern of J (declared or fill-closed)
+    auto pattern = [&](const VS& m)
+    {
+      std::string o;
+      for (std::size_t i = 0; i < p.ns; ++i)
+        for (std::size_t j = 0; j < p.ns; ++j)
+          if (!m.IsZero(i, j))
+            o += (o.empty() ? "" : ",") + std::to_string(i) + ":" + std::to_string(j);
+      return o.empty() ? std::string("-") : o;
+    };
+    {
+      std::string ir;
+      micm::verif::JitIrSink() = &ir;
+      micm::JitLinearSolver<L, VS, micm::JitLuDecompositionDoolittle<L>> lsj(J, 0.0);
+      micm::verif::JitIrSink() = nullptr;
+      os << "PATTERN n=" << p.ns << " elems=" << pattern(J) << "\n";
+      os << "IR lusolve\n" << ir << "\nENDIR\n";
+    }
+    // a whole JIT-built solver: its diagonal-shift function against its own Jacobian pattern
+    {
+      std::string ir;
+      micm::verif::JitIrSink() = &ir;
+      auto solver = micm::JitSolverBuilder<micm::JitRosenbrockSolverParameters, L>(
+                        micm::JitRosenbrockSolverParameters(micm::RosenbrockSolverParameters::ThreeStageRosenbrockParameters()))
+                        .SetSystem(micm::System(micm::SystemParameters{ .gas_phase_ = micm::Phase{ p.species } }))
+                        .SetReactions(p.procs)
+                        .SetNumberOfGridCells(L)
+                        .Build();
+      micm::verif::JitIrSink() = nullptr;
+      auto st = solver.GetState();
+      os << "SOLVERPATTERN n=" << p.ns << " elems=" << pattern(st.jacobian_) << "\n";
+      os << "IR solver\n" << ir << "\nENDIR\n";
+    }
+  }
+
 int main(int argc, char** argv)
 {
+  if (argc > 1 && std::string(argv[1]) == "ir")
+  {
+    std::uint64_t seed0 = argc > 2 ? std::stoull(argv[2]) : 1;
+    int n = argc > 3 ? std::stoi(argv[3]) : 3;
+    for (int k = 0; k < n; ++k)
+    {
+      std::uint64_t seed = seed0 * 1000 + k;
+      dumpPrograms<1>(seed, std::cout);
+      dumpPrograms<2>(seed, std::cout);
+      dumpPrograms<3>(seed, std::cout);
+      dumpPrograms<4>(seed, std::cout);
+    }
+    return 0;
+  }
   std::uint64_t seed0 = argc > 1 ? std::stoull(argv[1]) : 1;
   int n = argc > 2 ? std::stoi(argv[2]) : 3;
   for (int k = 0; k < n; ++k)
